@@ -332,7 +332,7 @@ type Oracle struct {
 	// like any operation with an unknown outcome they may take effect late, i.e.
 	// after operations acknowledged later in the same process, as long as they
 	// are legal (contiguous) at that point and displace nothing.
-	Late  []Op
+	Late []Op
 	// Ghosts are appends that were in flight at a crash. If a later recovery
 	// shows such a batch although an earlier one showed it absent, the batch was
 	// resurrected from stale bytes.
